@@ -152,6 +152,33 @@ type VOpts struct {
 	ValidSigs bool
 }
 
+// keyConflictAttempt: registrations whose declared keys contradict each other
+// (generated on purpose, Knobs.PEmptyGroup): they must be rejected.
+func keyConflictAttempt(op Op) string {
+	if op.F == nil {
+		return ""
+	}
+	if op.O != nil && strings.HasPrefix(op.O.Group, ",") {
+		return fmt.Sprintf("a value group without a name (Group(%q))", op.O.Group)
+	}
+	if op.O != nil && op.O.Name != "" && op.O.Group != "" {
+		return fmt.Sprintf("Name(%q) together with Group(%q)", op.O.Name, op.O.Group)
+	}
+	var walk func(rs []Result) string
+	walk = func(rs []Result) string {
+		for _, r := range rs {
+			if r.Tag == "" && r.Name != "" && r.Group != "" {
+				return fmt.Sprintf("a result field tagged name:%q and group:%q", r.Name, r.Group)
+			}
+			if s := walk(r.Obj); s != "" {
+				return s
+			}
+		}
+		return ""
+	}
+	return walk(op.F.R)
+}
+
 // sideFnOf finds the constructor spec with the given id among the functions
 // that bodies of the case register (Fn.SideFn).
 func sideFnOf(c *Case, id int) *Fn {
@@ -315,12 +342,13 @@ func Validate(c *Case, tr *Trace, vo VOpts) *VResult {
 					v.Labels["as-own-type-zone"] = true
 				}
 			}
-			if kind == KCtor && op.O != nil && strings.HasPrefix(op.O.Group, ",") {
-				// a value group needs a name: (type, "") is the key of the
-				// plain unnamed value of that type
+			if what := keyConflictAttempt(op); kind == KCtor && what != "" {
+				// a value group needs a name ((type, "") is the key of the
+				// plain unnamed value of that type), and one result cannot
+				// be a named value and a group member at once
 				v.Labels["nameless-group-attempt"] = true
 				if accepted {
-					v.add(CVerdictProvide, i, "a value group without a name (Group(%q)) was accepted", op.O.Group)
+					v.add(CVerdictProvide, i, "%s was accepted", what)
 				}
 				if !accepted {
 					rejected[op.F.ID] = true
@@ -616,14 +644,14 @@ func (v *VResult) validateInvoke(c *Case, tr *Trace, rt *RT, i int, op Op, out O
 		for id := range ii.MayRun {
 			if g := m.Fns[id]; g != nil && !okAtStart[id] {
 				for _, lf := range g.Leaves {
-					if !lf.Opt && !lf.IsGroup && m.ExpectSingle(g, lf.Key) == nil {
+					if !lf.Opt && !lf.IsGroup && m.NoSource(g, lf.Key) {
 						hole = true
 					}
 				}
 			}
 		}
 		for _, lf := range fn.Leaves {
-			if !lf.Opt && !lf.IsGroup && m.ExpectSingle(fn, lf.Key) == nil {
+			if !lf.Opt && !lf.IsGroup && m.NoSource(fn, lf.Key) {
 				hole = true
 			}
 		}
